@@ -13,6 +13,7 @@ import (
 
 	"github.com/aptpod/iscp-go/log"
 	"github.com/aptpod/iscp-go/message"
+	"github.com/aptpod/iscp-go/verifhook"
 	"github.com/aptpod/iscp-go/wire"
 	uuid "github.com/google/uuid"
 	"golang.org/x/sync/errgroup"
@@ -309,6 +310,7 @@ func (u *Upstream) run(isResume bool) error {
 		u.sent.Clear(u.ctx, u.ID)
 	}
 	eg.Go(func() error {
+		verifhook.Point("upstream.watch.start", u.ID.String())
 		u.connState.cond.L.Lock()
 		for !u.connState.IsWithoutLock(connStatusReconnecting) {
 			select {
